@@ -313,3 +313,73 @@ Proof.
   assert (10 ^ 19 <= 10 ^ (ndig w - 1)) by (apply Z.pow_le_mono_r; lia).
   rewrite B_eq in H1. lia.
 Qed.
+
+(* ---- skipn (cutting low words) ---- *)
+Lemma val_skipn j l : words_ok l = true ->
+  val (skipn j l) = val l / B ^ Z.of_nat j.
+Proof.
+  revert l; induction j as [|j IH]; intros l Hok.
+  - cbn [skipn]. change (Z.of_nat 0) with 0. rewrite Z.pow_0_r, Z.div_1_r. reflexivity.
+  - destruct l as [|w l].
+    + cbn [skipn val]. now rewrite Z.div_0_l by (pose proof (Bpow_pos (S j)); lia).
+    + apply words_ok_cons in Hok as [Hw Hl]. cbn [skipn]. rewrite IH by assumption.
+      rewrite Nat2Z.inj_succ, Z.pow_succ_r by lia. cbn [val].
+      pose proof B_pos. pose proof (Bpow_pos j).
+      rewrite <- Z.div_div by lia.
+      replace (w + B * val l) with (val l * B + w) by ring.
+      rewrite Z.div_add_l by lia. rewrite (Z.div_small w B) by lia. now rewrite Z.add_0_r.
+Qed.
+
+Lemma words_ok_skipn j l : words_ok l = true -> words_ok (skipn j l) = true.
+Proof.
+  revert l; induction j as [|j IH]; intros l H; [exact H|].
+  destruct l as [|w l]; [reflexivity|]. apply words_ok_cons in H as [_ H]. cbn [skipn]. now apply IH.
+Qed.
+
+Lemma zlen_skipn {A} j (l : list A) : (j <= length l)%nat -> zlen (skipn j l) = zlen l - Z.of_nat j.
+Proof. intros H. unfold zlen. rewrite skipn_length. lia. Qed.
+
+Lemma last_skipn j l : (j < length l)%nat -> last (skipn j l) 0 = last l 0.
+Proof.
+  revert l; induction j as [|j IH]; intros l H; [reflexivity|].
+  destruct l as [|w l]; [cbn in H; lia|]. cbn [skipn]. cbn [length] in H.
+  rewrite IH by lia. destruct l; [cbn in H; lia|reflexivity].
+Qed.
+
+(* ---- to_words of small numbers ---- *)
+Lemma to_words_0 k : to_words k 0 = repeat 0 k.
+Proof. induction k as [|k IH]; [reflexivity|]. cbn [to_words repeat]. rewrite Z.mod_0_l, Z.div_0_l by (pose proof B_pos; lia). now rewrite IH. Qed.
+
+Lemma val_repeat0 k : val (repeat 0 k) = 0.
+Proof. induction k as [|k IH]; [reflexivity|]. cbn [repeat val]. lia. Qed.
+
+Lemma last_to_words_top k n : 0 <= n < B ^ Z.of_nat (S k) ->
+  last (to_words (S k) n) 0 = n / B ^ Z.of_nat k.
+Proof.
+  revert n; induction k as [|k IH]; intros n Hn.
+  - cbn [to_words last]. change (Z.of_nat 0) with 0. rewrite Z.pow_0_r, Z.div_1_r.
+    change (Z.of_nat 1) with 1 in Hn. rewrite Z.pow_1_r in Hn. apply Z.mod_small. lia.
+  - change (to_words (S (S k)) n) with (n mod B :: to_words (S k) (n / B)).
+    assert (last (n mod B :: to_words (S k) (n / B)) 0 = last (to_words (S k) (n / B)) 0) as -> by reflexivity.
+    pose proof B_pos. pose proof (Bpow_pos (S k)). pose proof (Bpow_pos k).
+    rewrite IH.
+    + rewrite Z.div_div by lia. f_equal. rewrite (Nat2Z.inj_succ k), Z.pow_succ_r by lia. reflexivity.
+    + rewrite (Nat2Z.inj_succ (S k)), Z.pow_succ_r in Hn by lia. split; [apply Z.div_pos; lia|].
+      apply Z.div_lt_upper_bound; lia.
+Qed.
+
+(* the value of a word list determines its words once the length is fixed *)
+Lemma to_words_val l : words_ok l = true -> to_words (length l) (val l) = l.
+Proof.
+  induction l as [|w l IH]; intros H; [reflexivity|].
+  apply words_ok_cons in H as [Hw Hl]. cbn [length to_words val]. pose proof B_pos.
+  replace (w + B * val l) with (w + val l * B) by ring.
+  rewrite Z.mod_add, Z.div_add, (Z.mod_small w B), (Z.div_small w B), Z.add_0_l by lia.
+  now rewrite IH.
+Qed.
+
+Lemma norm_nonempty_last l : l <> [] -> last l 0 <> 0 -> norm l = l.
+Proof. intros _ H. now apply norm_id. Qed.
+
+Lemma pow10_19 k : 0 <= k -> 10 ^ (19 * k) = B ^ k.
+Proof. intros H. rewrite B_eq, <- Z.pow_mul_r by lia. reflexivity. Qed.
